@@ -407,6 +407,11 @@ def run(chk):
         return chk.finish(level="proof", rule="driver unavailable")
     drv = Driver()
     thorough = chk.tier == "thorough"
+    if thorough:
+        ok, out = common.leanchecker(['SqlLineage.Props.C13', 'SqlLineage.Proofs.FrameLemmas', 'SqlLineage.Proofs.WriteColsLemmas', 'SqlLineage.Proofs.FlatLemmas', 'SqlLineage.Model.InsertCols'])
+        chk.coverage["leanchecker"] = "accepted" if ok else "REJECTED: " + out[-300:]
+        if not ok:
+            chk.lean.forbidden.append("leanchecker rejected the property's modules: " + out[-300:])
     have_sqlite = sqlalchemy_available()
     st = sqlcheck.Stats()
     dialect = "ansi"
